@@ -149,6 +149,10 @@ func checkC12(c *Ctx) {
 		c12RX1Channel(c, bands, cfg, fam)
 		c12Ping(c, bands, cfg, fam)
 	}
+	// the accessors it looks at are evaluated point by point (R10 on a margin grid, R5 on every channel index) and
+	// interpreted on symbolic arguments (R5.rx1freq-e1, R6.ping-e1), where an out-of-range index is a refutation; the
+	// dominating-guard reading is a second opinion whose "not recognised" is a note
+	c.Run.Advisory("R7.signedindex", "R10.rx1-total", "R5.rx1chan", "R5.rx1freq-e1", "R6.ping-e1")
 	signedIndexRule(c, "R7.signedindex", "band", func(recv, meth string) bool {
 		return strings.HasPrefix(meth, "GetRX1") || meth == "GetPingSlotFrequency" || meth == "GetDefaults"
 	})
